@@ -465,6 +465,48 @@ C03Case(P, base, pkgDiff) ==
                    <<[Out(P) EXCEPT !.full = full("Out")]>> \o [i \in 1..Len(ds) |-> rq(ds[i])], <<>>)>>)
 
 (***************************************************************************)
+(* C18: document-level shapes.                                             *)
+(***************************************************************************)
+C18Shapes == {"same_named_nested", "multi_service", "imported_msgs", "path_and_query", "headers"}
+C18Case(P, sh) ==
+  LET do(n, in, out, parts, verb) == Method(n, in, out, TRUE, parts, verb)
+  IN CASE sh = "same_named_nested" ->
+            Schema(<<File(P \o "/svc.proto", Pkg(P), GoPkg(P), TRUE, <<>>,
+                          <<Svc(P, <<do("Do", FN(P, "OrderReq"), FN(P, "InvoiceResp"), Parts(TRUE, <<Lit("do")>>, FALSE), "POST")>>)>>,
+                          <<MsgN("OrderReq", FN(P, "OrderReq"), <<FRef("item", "item", 1, "message", "one", FN(P, "OrderReq") \o ".Item")>>,
+                                 <<Msg("Item", FN(P, "OrderReq") \o ".Item", <<F("sku", "sku", 1, "string", "one")>>)>>),
+                            MsgN("InvoiceResp", FN(P, "InvoiceResp"), <<FRef("item", "item", 1, "message", "one", FN(P, "InvoiceResp") \o ".Item")>>,
+                                 <<Msg("Item", FN(P, "InvoiceResp") \o ".Item", <<F("amount", "amount", 1, "double", "one"), F("currency", "currency", 2, "string", "one")>>)>>)>>, <<>>)>>)
+       [] sh = "multi_service" ->
+            Schema(<<File(P \o "/svc.proto", Pkg(P), GoPkg(P), TRUE, <<>>,
+                          <<Svc(P, <<do("Do", FN(P, "In"), FN(P, "Out"), Parts(TRUE, <<Lit("do")>>, FALSE), "POST")>>),
+                            Service("Second", TRUE, Parts(TRUE, <<Lit("second")>>, FALSE),
+                                    <<do("Other", FN(P, "In"), FN(P, "Child"), Parts(TRUE, <<Lit("o")>>, FALSE), "POST"),
+                                      do("Third", FN(P, "Child"), FN(P, "Out"), Parts(TRUE, <<Lit("t")>>, FALSE), "PUT")>>)>>,
+                          <<In(P), Out(P), Child(P)>>, <<>>)>>)
+       [] sh = "imported_msgs" ->
+            Schema(<<File(P \o "/types.proto", Pkg(P), GoPkg(P), FALSE, <<>>, <<>>, <<Child(P), Child2(P)>>, <<EnumE>>),
+                     File(P \o "/svc.proto", Pkg(P), GoPkg(P), TRUE, <<P \o "/types.proto">>,
+                          <<Svc(P, <<do("Do", FN(P, "W"), FN(P, "Child2"), Parts(TRUE, <<Lit("do")>>, FALSE), "POST")>>)>>,
+                          <<Msg("W", FN(P, "W"), <<FRef("c", "c", 1, "message", "one", FN(P, "Child")), FRef("e", "e", 2, "enum", "rep", FN(P, "E"))>>)>>, <<>>)>>)
+       [] sh = "path_and_query" ->
+            Schema(<<File(P \o "/svc.proto", Pkg(P), GoPkg(P), TRUE, <<>>,
+                          <<Svc(P, <<do("Get", FN(P, "Q"), FN(P, "Out"), Parts(TRUE, <<Lit("orgs"), Var("org_id"), Lit("items"), Var("item_id")>>, FALSE), "GET"),
+                                     do("Put", FN(P, "Q"), FN(P, "Out"), Parts(TRUE, <<Lit("orgs"), Var("org_id"), Lit("items"), Var("item_id")>>, FALSE), "PUT"),
+                                     do("Del", FN(P, "Q"), FN(P, "Out"), Parts(TRUE, <<Lit("orgs"), Var("org_id"), Lit("items"), Var("item_id")>>, FALSE), "DELETE")>>)>>,
+                          <<Out(P), Msg("Q", FN(P, "Q"), <<F("org_id", "orgId", 1, "string", "one"), F("item_id", "itemId", 2, "int64", "one"),
+                                                          [Ann(F("page", "page", 3, "int32", "one"), "query", TRUE) EXCEPT !.ann.queryName = "p"],
+                                                          Ann(F("org", "org", 4, "string", "one"), "query", TRUE)>>)>>, <<>>)>>)
+       [] sh = "headers" ->
+            Schema(<<File(P \o "/svc.proto", Pkg(P), GoPkg(P), TRUE, <<>>,
+                          <<WithHeaders(Svc(P, <<MethodHeaders(do("Do", FN(P, "In"), FN(P, "Out"), Parts(TRUE, <<Lit("do")>>, FALSE), "POST"),
+                                                               <<[Header("X-Zeta", "integer", "", FALSE) EXCEPT !.example = "123"],
+                                                                 [Header("X-Extra", "string", "date-time", TRUE) EXCEPT !.example = "true"],
+                                                                 [Header("X-Nul", "string", "", FALSE) EXCEPT !.example = "null"]>>)>>), H3)>>,
+                          <<Msg("In", FN(P, "In"), <<[F("id", "id", 1, "string", "one") EXCEPT !.ann.examples = <<"007", "true", "1e3", "~">>],
+                                                     [F("on", "on", 2, "string", "one") EXCEPT !.ann.examples = <<"yes", "no">>]>>), Out(P)>>, <<>>)>>)
+
+(***************************************************************************)
 (* C04 / C05: each annotated construct A in each context inside the RPC's  *)
 (* top-level message.                                                      *)
 (***************************************************************************)
